@@ -252,7 +252,7 @@ class odict(dict):
         dict.update(self, other)
         keys = self._keys
 
-        for key in other:
+        for key in list(other):  # copy since other may be self whose keys change below
             if key in keys:
                 keys.remove(key)
             keys.append(key)
